@@ -28,8 +28,8 @@ CHECKS["C19"] = dict(
          "line is line pos.start.line printed with that number, the caret run, containment of union, and the CaretPos "
          "re-basing arithmetic that places interpolation tokens inside their string.",
     note="Bounds: coordinates <= 2^31-2 and >= 1 (or invisible), <= 2^20 source lines, offset <= 1. str::lines().nth "
-         "and String::from_utf8 are contract stubs; fmt machinery uninterpreted. Not claimed: that every error path "
-         "attaches the right file, and fault-line localisation (whole checker).",
+         "and String::from_utf8 are contract stubs; fmt machinery uninterpreted. Not claimed: fault-line localisation (whole checker); errors built "
+         "outside mamba_to_python's three stages (Context::try_from carries no file).",
     design="§4 C19")
 CHECKS["C18"] = dict(
     engine="E2 mirsym (MIR -> z3) + E1 kani", technique="symbolic execution of rustc MIR + z3 (State summaries, inductive loop invariants, one symbolic lexer step over an arbitrary ASCII stream); Kani/CBMC harnesses for the fixed-width lexer steps, State methods and keyword table",
@@ -261,6 +261,31 @@ NOT_APPLICABLE = {
 }
 
 PENDING = {}
+
+
+# ---- additions of rounds 5-6 (kept separate so that the base texts above stay readable)
+ADDED = {
+    "C05": " Added: the zip of unify_function for calls of function-typed values; the `call >= declared result` constraint of gen_call; and the scope "
+           "family - which shadow table each side of a constraint is renamed with (function body, if-branch, match arm, initialiser of a definition), "
+           "recognising both ConstrBuilder::add(.., env) and per-side map_exp + add_constr_map. Four genuine defects of the pinned tree were found this "
+           "way (three repaired, one known finding that the repository's own suite enshrines).",
+    "C09": " Added: gen_builder (comprehensions: iterable from the incoming environment, element and conditions from the defining one, the variable does "
+           "not escape) and frame conditions of the Environment's copying methods over vars / var_mapping / unassigned with the shadow-offset rule of insert_var / get_var.",
+    "C11": " Added: self-composition of gen_arguments over GenArguments::annotate (same calls, same arguments, same assembly of imports and statements) and, on the "
+           "printer's text model, template(with annotation) minus `: ty` / ` -> ty` = template(without) for VarDef / FunArg / FunDef under every compatible setting of the other fields.",
+    "C12": " Added: Class::inherit keeps a parent's member only when all own members differ in a key that is at least as coarse as what Class::field / Class::fun "
+           "`find` by (z3, structural PartialEq), and StringName::substitute builds Union[..] from a sorted iteration (violated on the pinned tree: verdict of "
+           "`def a := [1, \"a\"]; print(a)` changed from process to process; repaired).",
+    "C15": " Added: CoreFunOp::from (the table that sends a function NAME down the operator branch) is decided over every spelling it compares its argument with, "
+           "extracted from the path conditions of a run on a symbolic name; an undocumented key is replayed with a function of that name.",
+    "C16": " Added: imports-threaded - on every path of every converter arm (about 60 arms) each call that takes an import accumulator is handed the arm's own `imp` "
+           "(cell identity in the symbolic store), never a fresh or different Imports value.",
+    "C17": " Added: the operator name table is decided over every spelling CoreFunOp::from compares with (see C15).",
+    "C19": " Added: every closure of mamba_to_python that decorates errors with a (source, path) pair runs its stage itself on the item it received with that pair and "
+           "decorates exactly the errors of that call (map_err and closure calls inlined); the Eof token is placed after the END of the last token of tokens ++ pending dedents, never at the lexer's cursor.",
+}
+for _k, _v in ADDED.items():
+    CHECKS[_k]["text"] += _v
 
 
 def main():
